@@ -5,7 +5,7 @@
 From Coq Require Import List NArith ZArith Bool Lia Permutation.
 From SK Require Import lib.Tok lib.LGraph model.C03_Model model.C03_Order model.C03_Reactor proof.C03_Proof proof.C03_Glue
                        proof.C03_Backward proof.C03_Ord proof.C03_ReactorProof proof.C03_ReactorSpec proof.C03_Capstone
-                       proof.C03_LinkDefault proof.C03_LinkImplicit proof.C03_LinkBackward proof.C03_NoCrash.
+                       proof.C03_LinkDefault proof.C03_LinkImplicit proof.C03_LinkBackward proof.C03_NoCrash proof.C03_PairIds.
 Import ListNotations.
 Local Open Scope Z_scope.
 
@@ -79,4 +79,83 @@ Proof.
     destruct (explicit_all (spec_glued inp)) as [gs|] eqn:Ea; [eauto|exfalso; exact (Hnc Ex Ea)].
   - intros gs g Hits Ig.
     exact (its_list_default_end_to_end inp tpl' rc l r gs (eq_trans Ei (eq_sym Es)) Es Hel' Hw' Hc' Hcond' Hwh Hcalls Hits g Ig).
+Qed.
+
+(** * no pair ids, no migration: on a graph none of whose atoms carries a pair id _explicit_h changes nothing (rules without
+    h_pairs: inverted templates and inverted prepared rules — SynRule objects applied backwards — move hydrogens as counts) *)
+Lemma pair_to_nodes_nil T : (forall k a, In (k, a) (gnodes T) -> hp_of a = []) -> pair_to_nodes T = [].
+Proof.
+  unfold pair_to_nodes. generalize (gnodes T). intros ns H.
+  assert (G : forall pt, fold_left (fun pt (p : N * inode) =>
+               fold_left (fun pt' pid => pt_add pt' pid (fst p)) (match i_hp (snd p) with Some l => l | None => [] end) pt) ns pt = pt).
+  { induction ns as [|[k a] r IH]; intros pt; [reflexivity|]. cbn [fold_left fst snd].
+    change (match i_hp a with Some l => l | None => [] end) with (hp_of a). rewrite (H k a (or_introl eq_refl)). cbn [fold_left].
+    apply IH. intros k' a' I. apply (H k' a'). right. exact I. }
+  apply G.
+Qed.
+
+Theorem explicit_h_no_pairs ord T : (forall k a, In (k, a) (gnodes T) -> hp_of a = []) -> explicit_h_ord ord T = Some (T, []).
+Proof.
+  intros H. unfold explicit_h_ord, all_migrations_ord. rewrite (pair_to_nodes_nil T H). cbn [components fold_left].
+  unfold apply_migrations. cbn [fold_left]. reflexivity.
+Qed.
+
+(** gluing a rule without pair ids gives a graph without pair ids *)
+Lemma glued_no_pairs host rc m T :
+  wf_hostb host = true -> wf_rcb rc = true -> match_rcb host rc m = true -> glue host rc m = Some T ->
+  (forall k a, In (k, a) (gnodes rc) -> hp_of a = []) -> forall k a, In (k, a) (gnodes T) -> hp_of a = [].
+Proof.
+  intros Hwh Hwr Hm Hg Hrc k a I.
+  destruct (hp_of a) as [|p ps] eqn:E; [reflexivity|]. exfalso.
+  assert (Sp : share_pair T k k) by (exists p, a, a; rewrite E; simpl; auto).
+  destruct (glue_share_pair host rc m T k k Hwh Hwr Hm Hg Sp) as (x & y & X & Y & q & _ & _ & IX & _ & PX & _).
+  rewrite (Hrc x X IX) in PX. destruct PX.
+Qed.
+
+Theorem no_pairs_nocrash inp rc l r :
+  i_rule inp = Some (rc, l, r) -> wf_hostb (i_host inp) = true -> wf_rcb rc = true ->
+  forallb (call_okb (has_XH l) (i_host inp) rc) (i_calls inp) = true ->
+  (forall k a, In (k, a) (gnodes rc) -> hp_of a = []) ->
+  nocrash inp /\ (i_explicit inp = true -> spec_its inp = Some (map fst (spec_glued inp))).
+Proof.
+  intros Er Hwh Hwr Hc Hrc.
+  assert (K : forall T tbl, In (T, tbl) (spec_glued inp) -> explicit_h_ord (ord_of tbl) T = Some (T, [])).
+  { intros T tbl I. destruct (spec_glued_valid inp rc l r T tbl Er Hwh Hc I) as (hb & x & Kw & Km & Eg).
+    apply explicit_h_no_pairs. exact (glued_no_pairs hb rc x T Kw Hwr Km Eg Hrc). }
+  assert (E : explicit_all (spec_glued inp) = Some (map fst (spec_glued inp))).
+  { revert K. generalize (spec_glued inp). induction l0 as [|[T tbl] r0 IH]; intros K; [reflexivity|]. cbn [explicit_all map fst].
+    rewrite (K T tbl (or_introl eq_refl)), IH by (intros; apply K; right; assumption). reflexivity. }
+  split.
+  - intros _. rewrite E. discriminate.
+  - intros Ex. unfold spec_its. rewrite Er, Ex. exact E.
+Qed.
+
+Lemma invert_no_pairs T k a : In (k, a) (gnodes (invert_template T)) -> hp_of a = [].
+Proof. rewrite invert_gnodes. intros I. apply in_map_iff in I. destruct I as ([k0 a0] & E & _). inversion E; subst. reflexivity. Qed.
+
+(** a SynRule object applied backwards, TOTAL: the inverted prepared rule carries no pair ids, so the explicit-hydrogen stage
+    changes nothing, nothing raises, every read returns the specified value *)
+Theorem synrule_object_backward_total (implicit_temp : bool) inp tpl rc0 l0 r0 :
+  synrule tpl true = Some (rc0, l0, r0) ->
+  i_rule inp = wrap_template_rule true implicit_temp (rc0, l0, r0) ->
+  (forall k a, In (k, a) (gnodes tpl) -> a_el (iH a) = a_el (iG a)) ->
+  wf_rcb tpl = true -> edges_closedb tpl = true ->
+  wf_hostb (i_host inp) = true ->
+  forallb (call_okm (i_host inp) (fst (its_decompose (invert_template rc0)))) (i_calls inp) = true ->
+  nocrash inp /\ (forall ops, run_ops inp rs0 ops = map (spec_val inp) ops) /\ spec_its inp = Some (map fst (spec_glued inp)).
+Proof.
+  intros Es Ei Hel Hw Hc Hwh Hcalls.
+  destruct (default_rule_hyps tpl rc0 l0 r0 Hel Hw Hc Es) as (R1 & R2 & _).
+  unfold wrap_template_rule in Ei. cbn [fst] in Ei.
+  pose proof (invert_wf rc0 R1) as W'. pose proof (invert_edges_closedb rc0 R2) as C'.
+  assert (Hnd : nodupb (node_ids (invert_template rc0)) = true).
+  { unfold wf_rcb in W'. apply andb_prop in W'. destruct W' as [X _]. apply andb_prop in X. exact (proj1 X). }
+  rewrite (synrule_implicit _ Hnd) in Ei.
+  assert (Hcb : forallb (call_okb (has_XH (fst (its_decompose (invert_template rc0)))) (i_host inp) (invert_template rc0)) (i_calls inp) = true).
+  { rewrite forallb_forall in Hcalls. apply forallb_forall. intros c Ic.
+    exact (call_okm_okb _ _ _ c C' (left_of_rcb_dec _ (nodupb_NoDup _ Hnd)) (Hcalls c Ic)). }
+  destruct (no_pairs_nocrash inp _ _ _ Ei Hwh W' Hcb (invert_no_pairs rc0)) as [Hnc Hi].
+  split; [exact Hnc|]. split; [intros ops; exact (reads_stable inp ops Hnc)|].
+  unfold spec_its. rewrite Ei. destruct (i_explicit inp) eqn:Ex; [|reflexivity].
+  specialize (Hi eq_refl). unfold spec_its in Hi. rewrite Ei, Ex in Hi. exact Hi.
 Qed.
